@@ -264,11 +264,11 @@ pub fn record_size(signer: &MSigner, seq: u64, pairs: &Pairs) -> usize {
     let content = content_bytes(seq, pairs);
     let h = rlp::header(&content).expect("own encoding");
     let payload_len = h.len;
-    let sig_len = match signer.sig_len {
-        Some(l) => l,
-        None => sig::toy_sig(&signer.pubkey, &content).len(),
+    let sig_item = match signer.sig_len {
+        Some(l) => rlp::enc_str(&vec![0x80u8; l]).len(),
+        // (a one-byte toy signature below 0x80 is its own encoding)
+        None => rlp::enc_str(&sig::toy_sig(&signer.pubkey, &content)).len(),
     };
-    let sig_item = rlp::enc_str(&vec![0x80u8; sig_len]).len();
     let total_payload = sig_item + payload_len;
     rlp::list_header_len(total_payload) + total_payload
 }
